@@ -306,11 +306,15 @@ def run(ctx):
         for e in edges:
             im = g.states[e[0]]["img"]
             K = sorted(e[2][0])
-            ctx.case(("update", str(sorted(im["attrs"].items())), im["channels"], tuple(K)))
+            form = e[2][1]
+            ctx.case(("update", str(sorted(im["attrs"].items())), im["channels"], tuple(K), form))
             try:
                 img, arr = make_image(im, nprng)
                 keep = fp.fingerprint(img)
-                new = update_metadata(img, **{k: newvals[k] for k in K})
+                nv = dict(newvals)
+                if form == "three_components":
+                    nv["illum_polarization"] = (3.0, 4.0, 0.0)
+                new = update_metadata(img, **{k: nv[k] for k in K})
             except Exception as ex:
                 ctx.violation("update/exception", {"img": im, "keys": K, "exc": repr(ex)[:300]})
                 continue
